@@ -672,4 +672,14 @@ def run(repo, rep, tier):
     if i.rule == 'R2/reconciliation':
       i.rule = 'R4/reconciliation'
       rep.instances.append(i)
+  # the index sets the generators work on are the eligibility classes of the installed geo order: the index setter must
+  # build the assignments from its argument, in its order (C04.R4 / C15.R3); an index i that carries another geo's
+  # eligibility row makes every generator place geos illegally
+  from mmsa.props import c04
+  sub = type(rep)(rep.prop, rep.tier, rep.repo)
+  c04.r4_data_object(repo, sub)
+  for i in sub.instances:
+    if i.rule == 'R4/single-source' and ('geo_assignments' in (i.subject or '') or 'geo_assignments' in (i.construct or '') or 'geo_assignments' in (i.detail or '')):
+      i.rule = 'R1e/assignments-of-installed-order'
+      rep.instances.append(i)
   rep.assume('the eligibility table has no all-zero row and distinct IDs (C16); cardinalities are abstracted')
